@@ -101,6 +101,7 @@ class Fn:
         self.masked = {}          # name -> mask expr string it was indexed with
         self.env = {}             # local name -> coq name (shadowing by let)
         self.bools = set()        # local names holding booleans
+        self.consts = {}          # loop variables of unrolled loops -> integer value
         self.optional = any(isinstance(n, ast.Return) and isinstance(n.value, ast.Constant) and n.value.value is None
                             for n in ast.walk(node))
 
@@ -115,7 +116,8 @@ class Fn:
             if n in self.given or not (isinstance(d, ast.Constant) and d.value is None):
                 isnone = False
             return isnone if isinstance(o, ast.Is) else not isnone
-        if n in self.static and isinstance(r, ast.Constant) and isinstance(o, (ast.Eq, ast.NotEq)):
+        if n in self.static and isinstance(r, ast.Constant) and isinstance(o, (ast.Eq, ast.NotEq)) \
+                and not isinstance(r.value, bool):
             return (self.static[n] == r.value) if isinstance(o, ast.Eq) else (self.static[n] != r.value)
         return None
 
@@ -142,9 +144,11 @@ class Fn:
             raise TranslateError("constant %r" % (e.value,))
         if isinstance(e, ast.Name):
             if e.id in self.masked:
-                if mask is None or self.masked[e.id][1] != mask:
+                if mask is None or self.masked[e.id] != mask:
                     raise TranslateError("mask-bound name %s used outside its mask" % e.id)
-                return (self.masked[e.id][0], "T")
+                return (e.id, "T")
+            if e.id in self.consts:
+                return (lit(self.consts[e.id]), "T")
             if e.id in self.bools:
                 return (e.id, "B")
             if e.id in self.env or e.id in self.args:
@@ -250,9 +254,11 @@ class Fn:
         if fname == "expm1" and len(args) == 1:
             return ("(fexpm1 O %s)" % self.ex(args[0], mask)[0], "T")
         if fname in KNOWN_FUNCS:
-            cname, cargs, cdefs = KNOWN_FUNCS[fname]
-            if e.keywords or len(args) > len(cargs):
-                raise TranslateError("call to %s with keywords / too many arguments" % fname)
+            cands = [c for c in KNOWN_FUNCS[fname] if len(c[1]) == len(args)] or \
+                    [c for c in KNOWN_FUNCS[fname] if len(args) < len(c[1]) and all(a in c[2] for a in c[1][len(args):])]
+            if e.keywords or not cands:
+                raise TranslateError("call to %s with keywords / unsupported arity" % fname)
+            cname, cargs, cdefs = cands[0]
             codes = [self.ex(a, mask)[0] for a in args]
             for an in cargs[len(args):]:
                 if an not in cdefs:
@@ -301,8 +307,8 @@ class Fn:
         for n in ast.walk(e):
             if isinstance(n, ast.Subscript) and self.is_mask(n.slice) and mkey(n.slice) not in out:
                 out.append(mkey(n.slice))
-            if isinstance(n, ast.Name) and n.id in self.masked and self.masked[n.id][1] not in out:
-                out.append(self.masked[n.id][1])
+            if isinstance(n, ast.Name) and n.id in self.masked and self.masked[n.id] not in out:
+                out.append(self.masked[n.id])
         return out
 
     # ---- statements
@@ -343,9 +349,9 @@ class Fn:
                             c, k = self.ex(v, mask=m)
                         except TranslateError:
                             continue
-                        self.masked[t.id] = ("(%s)" % c, m)
+                        self.masked[t.id] = m
                         self.env.pop(t.id, None)
-                        return self.block(rest)
+                        return "let %s := %s in\n%s" % (t.id, c, self.block(rest))
                     raise err
                 if k == "B":
                     self.bools.add(t.id)
@@ -360,10 +366,42 @@ class Fn:
                 c, _ = self.ex(s.value, mask=m)
                 return "let %s := (if %s then %s else %s) in\n%s" % (t.value.id, mc, c, t.value.id, self.block(rest))
             raise TranslateError("assignment target")
-        if isinstance(s, ast.AugAssign) and isinstance(s.target, ast.Name) and s.target.id in self.env:
+        if isinstance(s, ast.AugAssign) and isinstance(s.target, ast.Name) and (s.target.id in self.env or s.target.id in self.masked):
             e = ast.BinOp(left=ast.Name(id=s.target.id, ctx=ast.Load()), op=s.op, right=s.value)
-            c, _ = self.ex(e)
+            m = self.masked.get(s.target.id)
+            if m is None:
+                ms = self.masks_in(s.value)
+                if ms:      # a plain accumulator updated with mask-bound data becomes mask-bound itself
+                    m = ms[0]
+                    self.masked[s.target.id] = m
+                    self.env.pop(s.target.id, None)
+            c, _ = self.ex(e, mask=m)
             return "let %s := %s in\n%s" % (s.target.id, c, self.block(rest))
+        if isinstance(s, ast.AugAssign) and isinstance(s.target, ast.Subscript) and isinstance(s.target.value, ast.Name) \
+                and s.target.value.id in self.env and self.is_mask(s.target.slice):
+            m = mkey(s.target.slice)
+            mc = self.ex(s.target.slice)[0]
+            name = s.target.value.id
+            e = ast.BinOp(left=ast.Name(id=name, ctx=ast.Load()), op=s.op, right=s.value)
+            c, _ = self.ex(e, mask=m)
+            return "let %s := (if %s then %s else %s) in\n%s" % (name, mc, c, name, self.block(rest))
+        if isinstance(s, ast.For) and isinstance(s.target, ast.Name) and isinstance(s.iter, ast.Call) \
+                and getattr(s.iter.func, "id", None) == "range" and len(s.iter.args) == 1 \
+                and isinstance(s.iter.args[0], ast.Constant) and isinstance(s.iter.args[0].value, int) \
+                and 0 <= s.iter.args[0].value <= 64 and not s.orelse:
+            # a loop over a literal range is unrolled (the loop variable becomes an integer literal)
+            unrolled = []
+            for i in range(s.iter.args[0].value):
+                unrolled.append(("const", s.target.id, i))
+                unrolled += list(s.body)
+            unrolled.append(("unconst", s.target.id, None))
+            return self.block(unrolled + rest)
+        if isinstance(s, tuple):
+            if s[0] == "const":
+                self.consts[s[1]] = s[2]
+            else:
+                self.consts.pop(s[1], None)
+            return self.block(rest)
         if isinstance(s, ast.If):
             if not s.orelse and all(isinstance(b, ast.Expr) and isinstance(b.value, ast.Call) and
                                     getattr(b.value.func, "attr", getattr(b.value.func, "id", "")) == "warn" for b in s.body):
@@ -447,7 +485,7 @@ def translate_all(repo, table):
                     d = f.defaults.get(an)
                     if isinstance(d, ast.Constant) and isinstance(d.value, (int, float)) and not isinstance(d.value, bool):
                         cdefs[an] = lit(d.value if isinstance(d.value, int) else repr(d.value))
-                KNOWN_FUNCS.setdefault(fn, (name, list(f.args), cdefs))
+                KNOWN_FUNCS.setdefault(fn, []).append((name, list(f.args), cdefs))
         except (TranslateError, SyntaxError, OSError) as e:
             errs[name] = "%s: %s" % (type(e).__name__, e)
             out.append("(* %s: NOT TRANSLATED (%s) *)\n" % (name, errs[name].replace("*)", "* )")))
